@@ -23,7 +23,7 @@ import (
 )
 
 type Op struct {
-	Kind string `json:"kind"` // good | bad | bad-disk | dup | process | read | getmodule
+	Kind string `json:"kind"` // good | good-disk | bad | bad-disk | dup | process | read | getmodule
 	Idx  int    `json:"idx,omitempty"`
 }
 
@@ -238,6 +238,35 @@ func check(c Case) (o ev.Outcome) {
 	var last *result
 	lastBadKind := ""
 	diskDir := ""
+	fromDisk := map[string]bool{} // accepted texts that were read from diskDir (Modules.Read puts it on the search path)
+	needDir := func() {
+		if diskDir != "" {
+			return
+		}
+		d, err := ev.MkdirTemp("verif-c18-")
+		if err != nil {
+			panic(err)
+		}
+		diskDir = d
+		for _, g := range c.Good {
+			os.WriteFile(filepath.Join(diskDir, g.Name), []byte(g.Text), 0o644)
+		}
+	}
+	// freshLoad hands the accepted texts to a fresh set the way the history did
+	freshLoad := func(x *yang.Modules) bool {
+		for _, s := range loaded {
+			var err error
+			if fromDisk[s.Name] {
+				err = x.Read(filepath.Join(diskDir, s.Name))
+			} else {
+				err = x.Parse(s.Text, s.Name)
+			}
+			if err != nil {
+				return false
+			}
+		}
+		return true
+	}
 	defer func() {
 		if diskDir != "" {
 			os.RemoveAll(diskDir)
@@ -253,6 +282,11 @@ func check(c Case) (o ev.Outcome) {
 				}
 				src := c.Good[op.Idx]
 				if err := ms.Parse(src.Text, src.Name); err != nil {
+					if len(fromDisk) > 0 {
+						// an earlier Process may have fetched this very module from the directory
+						isLoaded[src.Name] = true
+						continue
+					}
 					if c.Hostile {
 						isLoaded[src.Name] = true
 						sawBad, lastBadKind = true, "hostile-text"
@@ -263,6 +297,27 @@ func check(c Case) (o ev.Outcome) {
 				}
 				loaded = append(loaded, src)
 				isLoaded[src.Name] = true
+				last = nil
+				sawGoodSinceProcess = true
+			case "good-disk":
+				// a text of the pool is read from the directory (which thereby comes onto the search path: what
+				// is missing is fetched from there, in the history as in the fresh set that reads the same file)
+				if op.Idx < 0 || op.Idx >= len(c.Good) || isLoaded[c.Good[op.Idx].Name] || c.Hostile {
+					continue
+				}
+				needDir()
+				src := c.Good[op.Idx]
+				if err := ms.Read(filepath.Join(diskDir, src.Name)); err != nil {
+					if len(fromDisk) > 0 {
+						// an earlier Process may have fetched this very module from the directory
+						isLoaded[src.Name] = true
+						continue
+					}
+					o.OutOfClaim = "a text of the consistent pool was rejected at load (judged elsewhere)"
+					return
+				}
+				loaded = append(loaded, src)
+				isLoaded[src.Name], fromDisk[src.Name] = true, true
 				last = nil
 				sawGoodSinceProcess = true
 			case "dup":
@@ -293,16 +348,7 @@ func check(c Case) (o ev.Outcome) {
 				if op.Idx < 0 || op.Idx >= len(c.Bad) || c.Hostile {
 					continue
 				}
-				if diskDir == "" {
-					d, err := ev.MkdirTemp("verif-c18-")
-					if err != nil {
-						panic(err)
-					}
-					diskDir = d
-					for _, g := range c.Good {
-						os.WriteFile(filepath.Join(diskDir, g.Name), []byte(g.Text), 0o644)
-					}
-				}
+				needDir()
 				src := c.Bad[op.Idx]
 				os.WriteFile(filepath.Join(diskDir, src.Name), []byte(src.Text), 0o644)
 				if err := ms.Read(filepath.Join(diskDir, src.Name)); err == nil {
@@ -313,6 +359,9 @@ func check(c Case) (o ev.Outcome) {
 			case "getmodule":
 				// the one-call door: GetModule processes whatever is loaded and hands out the module's tree; it
 				// must give what a fresh set with the same accepted texts gives through the same door
+				if len(fromDisk) > 0 {
+					continue // the set may hold fetched modules that the fresh set fetches only when it processes
+				}
 				var names []string
 				for k := range ms.Modules {
 					if !strings.Contains(k, "@") {
@@ -334,11 +383,9 @@ func check(c Case) (o ev.Outcome) {
 					return fmt.Sprintf("%s %v", j, problems)
 				}
 				fresh := yang.NewModules()
-				for _, s := range loaded {
-					if err := fresh.Parse(s.Text, s.Name); err != nil {
-						o.OutOfClaim = "fresh load of the accepted texts failed (harness)"
-						return
-					}
+				if !freshLoad(fresh) {
+					o.OutOfClaim = "fresh load of the accepted texts failed (harness)"
+					return
 				}
 				var want string
 				var tmp ev.Outcome
@@ -384,12 +431,7 @@ func check(c Case) (o ev.Outcome) {
 				{
 					// a history that crashes exactly where the batch run crashes is C01's business
 					pre := yang.NewModules()
-					ok := true
-					for _, s := range loaded {
-						if pre.Parse(s.Text, s.Name) != nil {
-							ok = false
-						}
-					}
+					ok := freshLoad(pre)
 					var tmp ev.Outcome
 					if ok && !ev.Guard(&tmp, "fresh batch", func() { processAndDump(pre) }) {
 						o.OutOfClaim = "the batch run of the accepted texts itself crashes (decided by C01)"
@@ -407,11 +449,9 @@ func check(c Case) (o ev.Outcome) {
 				sawGoodSinceProcess = false
 				// fresh batch
 				fresh := yang.NewModules()
-				for _, s := range loaded {
-					if err := fresh.Parse(s.Text, s.Name); err != nil {
-						o.OutOfClaim = "fresh load of the accepted texts failed (harness)"
-						return
-					}
+				if !freshLoad(fresh) {
+					o.OutOfClaim = "fresh load of the accepted texts failed (harness)"
+					return
 				}
 				var want result
 				var tmp ev.Outcome
@@ -707,12 +747,24 @@ func gen(t *rapid.T) Case {
 		c.Ops = append(c.Ops, Op{Kind: "good", Idx: fam[late]}, Op{Kind: "process"})
 		order, next = append(fam, rest...), len(fam)
 	}
+	dated := false // some module of the pool comes in two revisions (file names with a date)
+	for _, g := range c.Good {
+		if strings.Contains(g.Name, "@") {
+			dated = true
+		}
+	}
 	n := rapid.IntRange(2, maxOps).Draw(t, "ops")
 	for i := 0; i < n; i++ {
 		switch rapid.IntRange(0, 9).Draw(t, "op") {
 		case 0, 1, 2:
 			if next < len(order) {
-				c.Ops = append(c.Ops, Op{Kind: "good", Idx: order[next]})
+				kind := "good"
+				// (not in pools that hold two revisions of a module: what an import fetches from a directory depends, by design,
+				// on which revisions are loaded at that moment)
+				if famFrom < 0 && !dated && rapid.IntRange(0, 3).Draw(t, "good-text-read-from-a-directory") == 0 {
+					kind = "good-disk"
+				}
+				c.Ops = append(c.Ops, Op{Kind: kind, Idx: order[next]})
 				next++
 			} else {
 				c.Ops = append(c.Ops, Op{Kind: "process"})
@@ -744,7 +796,7 @@ func TestCheck(t *testing.T) {
 	ev.Run(t, ev.Spec[Case]{
 		ID:    "C18",
 		Level: "exploration",
-		Rule: "operation histories of 3-17 steps on one module set: load(next text of a pool of mutually consistent single-(sub)module texts from the schema model - a third of the pools also hold 2-3 revisions of one module (a quarter of these families without any typedef and alone in the pool; with a submodule in half, whose include the latest revision may drop while defining the submodule's identity itself) with a base module and modules importing the family with and without revision-date, reaching its typedef, grouping and identity through a drawn selection of shapes (typedef chains, union typedefs, nested and inline unions, scoped typedefs, rpc input/output, choice, notification, augments); the family texts come first in two thirds of these pools (and in a third of the family pools a scripted opening loads all family texts but one, processes, then loads the last and processes again) - in a random order so that imports and includes are often not yet loaded and later revisions arrive after a processing run; a fifth of the pools consist of the wrong, cyclic and mutated texts of C01's generators, where a pool text rejected at load counts as a failed load), load(bad text: syntax error; module or submodule rejected by a later statement after an inner node with a typedef was already built; a duplicate of a loaded text; a quarter of the bad texts are read with Modules.Read from a directory that also holds files of every text of the pool), process, read (accessors and path lookups that create rpc input/output on demand), getmodule (Modules.GetModule of a loaded name, compared with the same call on a fresh set). " +
+		Rule: "operation histories of 3-17 steps on one module set: load(next text of a pool of mutually consistent single-(sub)module texts from the schema model - a third of the pools also hold 2-3 revisions of one module (a quarter of these families without any typedef and alone in the pool; with a submodule in half, whose include the latest revision may drop while defining the submodule's identity itself) with a base module and modules importing the family with and without revision-date, reaching its typedef, grouping and identity through a drawn selection of shapes (typedef chains, union typedefs, nested and inline unions, scoped typedefs, rpc input/output, choice, notification, augments); the family texts come first in two thirds of these pools (and in a third of the family pools a scripted opening loads all family texts but one, processes, then loads the last and processes again) - in a random order so that imports and includes are often not yet loaded and later revisions arrive after a processing run; a fifth of the pools consist of the wrong, cyclic and mutated texts of C01's generators, where a pool text rejected at load counts as a failed load), load(bad text: syntax error; module or submodule rejected by a later statement after an inner node with a typedef was already built; a duplicate of a loaded text; a quarter of the bad texts and an eighth of the good ones are read with Modules.Read from a directory that also holds files of every text of the pool; a good text read from there brings the directory onto the search path, in the history as in the fresh set), process, read (accessors and path lookups that create rpc input/output on demand), getmodule (Modules.GetModule of a loaded name, compared with the same call on a fresh set). " +
 			"Oracle (model = list of accepted good texts): after every process the error list and, when it is empty, the complete dump (trees of all modules and submodules with types, attributes and identity value lists) equal those of a fresh set into which exactly the accepted texts were loaded in the same order and processed once; two consecutive process runs give equal results; every bad load returns an error. " +
 			"Non-trivial = a process after a failed load, or a process after a load that followed an earlier process; distinct by (texts, operation sequence)",
 		Assumptions: []string{
